@@ -627,7 +627,7 @@ def c09_s(draw, pid, tier, opts=None):
         else:
             ids = [e[1] for e in events if e[0] == "C"]
             events.insert(pos, ["X", draw(st.sampled_from(ids)) if ids else 1, "alpha.ex", "WHAT is this", "cur"])
-    return {"conf": conf, "events": events}
+    return {"conf": conf, "events": events, "crlf": bool(base.get("crlf")) or draw(st.integers(0, 5)) == 0}
 
 
 GRAMMAR = [
@@ -672,6 +672,8 @@ def eval_c09(case, ctx):
     conf = proto.Conf(case["conf"])
     text = ep.conf_text(case["conf"])
     d = dm.Daemon(text, wd)
+    if case.get("crlf"):
+        d.eol = b"\r\n"          # a server that ends its lines with CR LF: no CR may show up in what the daemon echoes
     all_lines = []
     multi_zero = False
     noisy = False
